@@ -357,17 +357,19 @@ def run_ops(ctx):
         for method, mode in itertools.product(METHODS, ALLMODES):
             if min(shape) < minsize(mode):
                 continue
-            for pad_const in ((0, 1.25) if mode == 'constant' else (0,)):
+            # (a pad_const handed in for a non-constant mode is documented to be ignored: same linear operator, adjoint offered)
+            for pad_const in ((0, 1.25) if mode == 'constant' else ((0, 0.75) if not mode.endswith('_adjoint') else (0,))):
                 idx += 1
                 if not ctx.mine(idx):
                     continue
-                cfgb = '%s;%s;n=%s;ndim=%d%s' % (method, mode, sizeclass(min(shape)), nd, ';affine' if pad_const else '')
+                eff_const = pad_const if mode == 'constant' else 0
+                cfgb = '%s;%s;n=%s;ndim=%d%s' % (method, mode, sizeclass(min(shape)), nd, ';affine' if eff_const else (';pad_const-ignored' if pad_const else ''))
                 mats = []
                 offs = []
                 for ax in range(nd):
                     R, c = ref_matrix(shape[ax], method, mode)
                     mats.append(kron_axis(R / h[ax], shape, ax))
-                    offs.append(offs_axis(pad_const * c / h[ax], shape, ax))
+                    offs.append(offs_axis(eff_const * c / h[ax], shape, ax))
                 ctx.case('ops;%s;%s;%s' % (tag, method, mode), pad_const)
                 # PartialDerivative on every axis
                 for ax in range(nd):
